@@ -710,16 +710,37 @@ func c08LoggerOrder(p *Prog) *RuleResult {
 		r.Instances++
 		// under (aiLoc == nil) ∧ (ajLoc == nil) a string comparison (<) must be evaluated
 		okNil, okLoc := false, false
-		eachInstr(less, func(b *ssa.BasicBlock, in ssa.Instruction) {
+		isTextCompare := func(in ssa.Instruction) bool {
 			bo, ok := in.(*ssa.BinOp)
 			if !ok || bo.Op != token.LSS {
-				return
+				return false
 			}
 			if bt, ok := bo.X.Type().Underlying().(*types.Basic); !ok || bt.Kind() != types.String {
-				return
+				return false
 			}
-			if _, n, ok := loadedField(bo.X); !ok || n != "Text" {
-				return
+			_, n, ok := loadedField(bo.X)
+			return ok && n == "Text"
+		}
+		eachInstr(less, func(b *ssa.BasicBlock, in ssa.Instruction) {
+			if !isTextCompare(in) {
+				// or a tie-break helper of the package that ends in the text comparison
+				c, ok := in.(*ssa.Call)
+				if !ok {
+					return
+				}
+				callee := c.Call.StaticCallee()
+				if callee == nil || callee.Blocks == nil || pkgPathOf(callee) != pkgPathOf(less) {
+					return
+				}
+				found := false
+				eachInstr(callee, func(_ *ssa.BasicBlock, x ssa.Instruction) {
+					if isTextCompare(x) {
+						found = true
+					}
+				})
+				if !found {
+					return
+				}
 			}
 			nilFacts := 0
 			nonNil := 0
